@@ -165,6 +165,33 @@ func init() {
 			px.inputs = append(px.inputs, InputRec{Name: un, Kind: "float", Bits: 64, term: t})
 			return SymFloat{Mode: FFP, T: t}
 		},
+		"AnyString": func(fr *frame, args []value) value {
+			name := str(args[0])
+			n := cint(fr, args[1], "len")
+			bs := make([]value, n)
+			for i := range bs {
+				t, _ := fr.newInput(fmt.Sprintf("%s[%d]", name, i), "uint", 8, smt.BV(8))
+				bs[i] = SymInt{T: t, K: types.Uint8, Bits: 8}
+			}
+			return mkString(bs)
+		},
+		"FloatString": func(fr *frame, args []value) value {
+			px := fr.i.px
+			name := str(args[0])
+			un := px.uniqueName(name + ".f")
+			ft := px.ctx.Var(un, smt.FP64)
+			px.inputs = append(px.inputs, InputRec{Name: un, Kind: "float", Bits: 64, term: ft})
+			un2 := px.uniqueName(name + ".err")
+			et := px.ctx.Var(un2, smt.Bool)
+			px.inputs = append(px.inputs, InputRec{Name: un2, Kind: "bool", Bits: 1, term: et})
+			// strconv.ParseFloat contract: on error the value is 0 (syntax) or ±Inf (range)
+			c := px.ctx
+			onErr := c.Or(c.Eq(ft, c.FPConst(0)), c.FIsInf(ft))
+			px.assertPC(c.Implies(et, onErr))
+			tok := fmt.Sprintf("\x00parsefloat:%s", un)
+			px.floatStrings[tok] = [2]*smt.Term{ft, et}
+			return tok
+		},
 		"Choose": func(fr *frame, args []value) value {
 			n := cint(fr, args[1], "choose.n")
 			px := fr.i.px
@@ -240,7 +267,7 @@ func goValue(fr *frame, v value, depth int) any {
 		return nil
 	case bool, int, int8, int16, int32, int64, uint, uint8, uint16, uint32, uint64, uintptr, float32, float64, string, complex64, complex128:
 		return x
-	case SymInt, SymBool, SymFloat:
+	case SymInt, SymBool, SymFloat, SymString:
 		return "<sym>"
 	case iface:
 		if x.t == nil {
@@ -248,10 +275,10 @@ func goValue(fr *frame, v value, depth int) any {
 		}
 		if depth < 3 {
 			// error / Stringer
-			if m := fr.i.prog.LookupMethod(x.t, nil, "Error"); m != nil && m.Signature.Params().Len() == 0 {
+			if m := findMethod(fr.i.prog, x.t, "Error"); m != nil && m.Signature.Params().Len() == 0 {
 				return safeCallString(fr, m, x.v)
 			}
-			if m := fr.i.prog.LookupMethod(x.t, nil, "String"); m != nil && m.Signature.Params().Len() == 0 && m.Signature.Results().Len() == 1 {
+			if m := findMethod(fr.i.prog, x.t, "String"); m != nil && m.Signature.Params().Len() == 0 && m.Signature.Results().Len() == 1 {
 				if b, ok := m.Signature.Results().At(0).Type().Underlying().(*types.Basic); ok && b.Kind() == types.String {
 					return safeCallString(fr, m, x.v)
 				}
@@ -278,6 +305,15 @@ func goValue(fr *frame, v value, depth int) any {
 		return "<map>"
 	}
 	return fmt.Sprintf("<%T>", v)
+}
+
+// findMethod returns the exported method `name` of t, or nil.
+func findMethod(prog *ssa.Program, t types.Type, name string) *ssa.Function {
+	sel := prog.MethodSets.MethodSet(t).Lookup(nil, name)
+	if sel == nil {
+		return nil
+	}
+	return prog.MethodValue(sel)
 }
 
 func safeCallString(fr *frame, m *ssa.Function, recv value) (out any) {
@@ -349,12 +385,12 @@ func errorsIs(fr *frame, err, target value) bool {
 				return true
 			}
 		}
-		if m := fr.i.prog.LookupMethod(e.t, nil, "Is"); m != nil && m.Signature.Params().Len() == 1 {
+		if m := findMethod(fr.i.prog, e.t, "Is"); m != nil && m.Signature.Params().Len() == 1 {
 			if r, ok := call(fr.i, fr, token.NoPos, m, []value{copyVal(e.v), t}).(bool); ok && r {
 				return true
 			}
 		}
-		m := fr.i.prog.LookupMethod(e.t, nil, "Unwrap")
+		m := findMethod(fr.i.prog, e.t, "Unwrap")
 		if m == nil || m.Signature.Params().Len() != 0 || m.Signature.Results().Len() != 1 {
 			return false
 		}
@@ -687,6 +723,26 @@ func DefaultIntrinsics() map[string]externalFn {
 	}
 
 	// --- strconv
+	m["strconv.ParseFloat"] = func(fr *frame, a []value) value {
+		s, ok := a[0].(string)
+		if !ok {
+			panic(engineError{"strconv.ParseFloat on a symbolic byte string (use verifrt.FloatString)"})
+		}
+		if ts, ok := fr.i.px.floatStrings[s]; ok {
+			// uninterpreted result of the real, table-driven decimal->binary conversion (DESIGN 2.3)
+			if fr.decide(ts[1], "parsefloat.err") {
+				return tuple{mkFP(ts[0]), fr.mkError("strconv.ParseFloat: parsing error", nil)}
+			}
+			return tuple{mkFP(ts[0]), iface{}}
+		}
+		f, err := strconv.ParseFloat(s, cint(fr, a[1], "bitsize"))
+		if err != nil {
+			return tuple{f, fr.mkError(err.Error(), nil)}
+		}
+		return tuple{f, iface{}}
+	}
+	m["internal/stringslite.Clone"] = func(fr *frame, a []value) value { return a[0] }
+	m["strings.Clone"] = func(fr *frame, a []value) value { return a[0] }
 	m["strconv.Itoa"] = func(fr *frame, a []value) value { return strconv.Itoa(cint(fr, a[0], "itoa")) }
 	m["strconv.FormatInt"] = func(fr *frame, a []value) value {
 		return strconv.FormatInt(asInt64(fr.concretize(a[0], "formatint")), cint(fr, a[1], "base"))
